@@ -320,3 +320,59 @@ def read_sigproc(path: str):
         buf = fp.read()
     fields, hdrlen = parse_header(buf)
     return fields, hdrlen, buf[hdrlen:]
+
+
+# ------------------------------------------------------------------ very large (sparse) file sets
+def sparse_pattern(off: np.ndarray) -> np.ndarray:
+    """Byte stored at stream offset `off` inside a written window (never 0: holes read as 0)."""
+    o = np.asarray(off, dtype=np.uint64)
+    with np.errstate(over="ignore"):
+        v = ((o * np.uint64(2654435761)) >> np.uint64(9)) ^ (o >> np.uint64(31)) ^ (o >> np.uint64(3))
+    return ((v & np.uint64(0xFF)) | np.uint64(1)).astype(np.uint8)
+
+
+class SparseSet:
+    """1-3 SIGPROC files whose data sections are gigabytes long but SPARSE: only small windows around the places a
+    scenario reads hold data (bytes given by `sparse_pattern` of the stream offset), the rest are holes (zeros).  The
+    model is a function of the offset - nothing of that size is ever held in memory or written."""
+
+    def __init__(self, root: str, spec: dict) -> None:
+        self.spec = spec
+        nbits, nchans = int(spec["nbits"]), int(spec["nchans"])
+        assert nbits == 8
+        self.stride = nchans
+        self.datalens = [int(n) * self.stride for n in spec["nsamps"]]
+        self.bounds = [int(b) for b in np.cumsum(self.datalens)]
+        self.total = self.bounds[-1]
+        self.nsamples = sum(int(n) for n in spec["nsamps"])
+        self.windows = sorted((int(a), int(b)) for a, b in spec["windows"])  # [lo, hi) stream offsets, clipped below
+        self.windows = [(max(0, a), min(self.total, b)) for a, b in self.windows if a < self.total and b > 0]
+        self.paths, self.hdrlens = [], []
+        tsamp = float(spec.get("tsamp", 0.001))
+        t = 0
+        for i, n in enumerate(spec["nsamps"]):
+            hdr = encode_header(header_fields(spec, i, float(spec.get("tstart", 58000.0)) + t * tsamp / 86400.0))
+            path = os.path.join(root, f"huge_{8 + i}.fil")
+            lo_f = self.bounds[i] - self.datalens[i]
+            with open(path, "wb") as fp:
+                fp.write(hdr)
+                fp.truncate(len(hdr) + self.datalens[i])
+                for a, b in self.windows:
+                    a2, b2 = max(a, lo_f), min(b, self.bounds[i])
+                    if a2 < b2:
+                        fp.seek(len(hdr) + a2 - lo_f)
+                        fp.write(sparse_pattern(np.arange(a2, b2, dtype=np.uint64)).tobytes())
+            self.paths.append(path)
+            self.hdrlens.append(len(hdr))
+            t += int(n)
+
+    def model(self, off: int, n: int) -> bytes:
+        """Bytes [off, off+n) of the joined data sections."""
+        if n <= 0:
+            return b""
+        out = np.zeros(n, dtype=np.uint8)
+        for a, b in self.windows:
+            a2, b2 = max(a, off), min(b, off + n)
+            if a2 < b2:
+                out[a2 - off : b2 - off] = sparse_pattern(np.arange(a2, b2, dtype=np.uint64))
+        return out.tobytes()
